@@ -308,7 +308,7 @@ def main():
         ids = {}
         for (h, o, s) in src_chunks:
             ids.setdefault(h, len(ids) + 1)
-        kind = rnd.choice(["regular", "regular", "blockdev"]) if sc.get("inplace", True) and len(prior) >= len(source) and prior else "regular"
+        kind = rnd.choice(["regular", "blockdev"] if a.mode == "faults" else ["regular", "regular", "blockdev"]) if sc.get("inplace", True) and len(prior) >= len(source) and prior else "regular"
         if not sc.get("inplace", True) and not prior:
             kind = "new"
         transport = rnd.choice(["local", "http"])
